@@ -16,7 +16,7 @@ TARGET = dict(
 )
 META = dict(
     technique="model-based property testing (rapidcheck tapes -> stateful C executors) against a 4-variable reference automaton: a recording mock back-end on upump_common, and the real upump_ev manager on a harness-owned libev loop, under ASan",
-    text="Generated histories of pump calls with up to 3 blockers, re-entrant callback actions and up to 3 pump lifetimes per case (pool recycling). Mock: after every call back-end active <=> started && no blocker, strict alternation and exact counts of real_start/real_stop/real_restart, status carried by the active back-end, blocker callbacks exactly once at free and never otherwise, owner refcount held during dispatch. Real upump_ev: every non-blocking loop iteration invokes the callback iff the automaton says active, never after stop/free, and ev_run's return value (loop keeps running) equals active && blocking status. Sampling.",
+    text="Generated histories of pump calls with up to 3 blockers, re-entrant callback actions and up to 3 pump lifetimes per case (pool recycling). Mock: after every call back-end active <=> started && no blocker, strict alternation and exact counts of real_start/real_stop/real_restart, status carried by the active back-end, blocker callbacks exactly once at free and never otherwise, owner refcount held during dispatch. Real upump_ev: every non-blocking loop iteration invokes the callback iff the automaton says active, never after stop/free, and ev_run's return value (loop keeps running) equals active && blocking status; an interloper ev_check watcher starts / stops / frees pumps inside the loop iteration. Sampling.",
     design_ref="DESIGN.md section 6, C13",
-    note="blocker callbacks that do not release their blocker, restart of a stopped non-timer pump, several pumps on one loop and allocation failures are outside the generated domain; timers are exercised with 0-tick (fires at the next iteration) and far (never fires) timeouts only",
+    note="blocker callbacks that do not release their blocker, restart of a stopped non-timer pump, several pumps on one loop and allocation failures other than that of a blocker (mock executor: a refused blocker allocation leaves the pump as it was) are outside the generated domain; timers are exercised with 0-tick (fires at the next iteration) and far (never fires) timeouts only",
 )
